@@ -64,6 +64,10 @@ impl Peekable {
 
     #[koto_method]
     fn peek_back(&mut self) -> Result<KValue> {
+        if !self.iter.is_bidirectional() {
+            return runtime_error!("peek_back: the wrapped iterator isn't bidirectional");
+        }
+
         let peeked = match self.peeked_back.clone() {
             Some(peeked) => peeked,
             None => match iter_output_to_result(self.next_back())? {
